@@ -4,7 +4,7 @@
 //! bookkeeping), and parameter binding at its Rust entry point. Same recipe as c08.rs (generated panicking stubs for
 //! every delegated method, concrete state variant per case, `run@first:1`, `fs=4096`).
 use super::*;
-use super::super::run_stubs_all;
+use super::super::{run_stubs_all, run_stubs_call};
 
 fn is_stack_overflow(r: &EvalResult<()>) -> bool {
     matches!(r, Err(e) if matches!(e.kind, EvalErrorKind::StackOverflow))
@@ -308,7 +308,7 @@ fn index_string_case(mode: u8) {
     core::mem::forget(keep);
 }
 
-// @harness id=c18_index_string props=C18,C02:thorough,C01:thorough tier=quick cap=1500 unwindset=9Evaluator3run@first:1
+// @harness id=c18_index_string props=C18,C02:thorough,C01:thorough tier=thorough cap=1500 unwindset=9Evaluator3run@first:1
 // @desc one iteration of the real Evaluator::run on Index over a string of two ARBITRARY characters (every UTF-8 width at both positions), index 0, 1, -0 and representatives of every invalid class (-1, 0.5, 2, 1e300, 2^64; the classification of all doubles is c01_float_to_int_contracts): index 0 / 1 (including -0) gives that character as a one-character string; an integral index >= 2 is NumericIndexOutOfRange with length 2 (characters, not bytes); a negative or fractional index is NumericIndexIsNotValid; never a panic
 // @bound one loop iteration; strings of exactly 2 characters (2..8 bytes); all finite doubles as index
 // @funcs Evaluator::run (arm State::Index), float::try_to_usize_exact, ValueData::from_char
@@ -327,7 +327,7 @@ fn c18_index_string() {
 }
 }
 
-/// done: whether the items are already evaluated; mode 0..=2 = that index, 3.. = -1, 1.5, 3, 1e300
+/// done: whether the items are already evaluated; mode 0..=2 = that index, 3.. = -1, 1.5, 3, 1e300; 7 = -0 (is index 0)
 fn index_array_case(done: bool, mode: u8) {
     let arena = Arena::new();
     let mut program = bare_program(&arena);
@@ -351,6 +351,7 @@ fn index_array_case(done: bool, mode: u8) {
         3 => -1.0,
         4 => 1.5,
         5 => 3.0,
+        7 => -0.0,
         _ => 1e300,
     };
     let mut ev = bare_evaluator(&mut program);
@@ -359,9 +360,9 @@ fn index_array_case(done: bool, mode: u8) {
     ev.value_stack.push(ValueData::Number(idx));
     ev.state_stack.push(State::Index { span });
     let r = ev.run();
-    if mode < 3 {
-        let i = mode as usize;
-        assert!(is_stack_overflow(&r), "a valid index is not an error");
+    if mode < 3 || mode == 7 {
+        let i = if mode == 7 { 0 } else { mode as usize };
+        assert!(is_stack_overflow(&r), "a valid index (-0 is 0) is not an error");
         if done {
             assert!(ev.state_stack.is_empty(), "an evaluated item is used directly");
             assert!(ev.value_stack.len() == 1 && matches!(&ev.value_stack[0], ValueData::Number(y)
@@ -418,7 +419,7 @@ fn index_type_error_case(obj: u8, idx: u8) {
 }
 
 // @harness id=c02_index_array_items props=C02,C04,C01:thorough tier=quick cap=1500 unwindset=9Evaluator3run@first:1
-// @desc one iteration of the real Evaluator::run on Index over a 3-element array: index 0 of an evaluated array gives that item's value directly; index 1 of a pending array forces exactly that item - no other - inside a counted ArrayItem frame
+// @desc one iteration of the real Evaluator::run on Index over a 3-element array: index 0 (and -0, which is the same number) of an evaluated array gives that item's value directly; index 1 of a pending array forces exactly that item - no other - inside a counted ArrayItem frame
 // @bound one loop iteration per case; arrays of length 3
 // @funcs Evaluator::run (arm State::Index), Evaluator::want_thunk_direct, float::try_to_usize_exact
 run_stubs_all! {
@@ -429,6 +430,8 @@ fn c02_index_array_items() {
     kani::cover!(true, "evaluated item used directly");
     index_array_case(false, 1);
     kani::cover!(true, "pending item forced");
+    index_array_case(true, 7);
+    kani::cover!(true, "index -0 selects item 0");
 }
 }
 
@@ -755,6 +758,69 @@ fn c02_param_binding_p3_n1() {
 }
 }
 
+/// `f(a = true, b, c = false)` called with no positional and ONE named argument whose name is ANY of a, b, c or a
+/// non-parameter: the two defaults are different expressions, so a default landing in the wrong slot is observable.
+fn binding_defaults_case() {
+    let arena = Arena::new();
+    let mut program = bare_program(&arena);
+    let names = [
+        program.str_interner.intern(&arena, "a"),
+        program.str_interner.intern(&arena, "b"),
+        program.str_interner.intern(&arena, "c"),
+        program.str_interner.intern(&arena, "w"),
+    ];
+    let da: &ir::Expr<'_> = arena.alloc(ir::Expr::Bool(true));
+    let dc: &ir::Expr<'_> = arena.alloc(ir::Expr::Bool(false));
+    let params: &[(InternedStr<'_>, Option<&ir::Expr<'_>>)] =
+        arena.alloc_slice(&[(names[0], Some(da)), (names[1], None), (names[2], Some(dc))]);
+    let func = FuncData::new(params, FuncKind::Identity { name: None });
+    let n: u8 = kani::any();
+    kani::assume(n < 4);
+    let named = [(names[n as usize], done_thunk(ValueData::Number(20.0)))];
+    let mut ev = bare_evaluator(&mut program);
+    let r0 = ev.check_thunk_args_and_execute_call(&func, &[], &named, None);
+    match &r0 {
+        Ok(()) => {
+            assert!(n == 1, "only naming b binds every parameter without a default");
+            let args = ev.array_stack.last().unwrap();
+            assert!(args.len() == 3);
+            let (t0, t1, t2) = (args[0].view(), args[1].view(), args[2].view());
+            assert!(matches!(t0.get_value(), Some(ValueData::Bool(true))), "a receives ITS OWN default");
+            assert!(matches!(t1.get_value(), Some(ValueData::Number(x)) if x == 20.0), "b receives the named argument");
+            assert!(matches!(t2.get_value(), Some(ValueData::Bool(false))), "c receives ITS OWN default, not a's");
+            core::mem::forget((t0, t1, t2));
+        }
+        Err(e) => {
+            let ok = match n {
+                0 | 2 => matches!(e.kind, EvalErrorKind::CallParamNotBound { .. }),
+                1 => false,
+                _ => matches!(e.kind, EvalErrorKind::UnknownCallParam { .. }),
+            };
+            assert!(ok, "b left unbound is CallParamNotBound; a non-parameter name is UnknownCallParam");
+        }
+    }
+    kani::cover!(r0.is_ok(), "default, named, default");
+    kani::cover!(n == 3, "unknown name");
+    core::mem::forget(r0);
+    core::mem::forget(ev);
+    core::mem::forget(program);
+    core::mem::forget((func, named));
+}
+
+// @harness id=c02_param_binding_defaults props=C02 tier=quick cap=1500
+// @desc the real parameter binder on f(a = D1, b, c = D2) (two DIFFERENT default expressions around a required parameter) called with one named argument of ANY name: naming b binds a to D1, b to the argument and c to D2 - each parameter gets its OWN default even when a named argument sits between two defaulted parameters; naming a or c leaves b unbound (CallParamNotBound); a non-parameter name is UnknownCallParam
+// @bound 3 parameters, two defaults; one named argument with a symbolic name
+// @funcs Evaluator::check_thunk_args_and_execute_call, Evaluator::check_call_thunk_args, Evaluator::check_call_args_generic, Program::new_pending_expr_thunk
+eval_stubs! {
+#[kani::proof]
+#[kani::unwind(6)]
+#[kani::stub(crate::program::eval::Evaluator::execute_call, crate::program::eval::Evaluator::kstub_execute_call_record)]
+#[kani::stub(crate::program::eval::Evaluator::report_error, crate::program::eval::Evaluator::kstub_report_error)]
+fn c02_param_binding_defaults() {
+    binding_defaults_case();
+}
+}
+
 // @harness id=c02_param_binding_positional props=C02 tier=quick cap=1500
 // @desc as c02_param_binding_p0_n2 for purely positional calls: 2 arguments (z takes its default), 3 arguments (fast path), 4 arguments (TooManyCallArgs), 1 argument (CallParamNotBound for y), 0 arguments
 // @bound 3 parameters (one default); positional 0..4
@@ -950,5 +1016,102 @@ fn c02_comprehension_if() {
     if_spec_case(true);
     if_spec_case(false);
     kani::cover!(true, "non-boolean condition");
+}
+}
+
+
+// ---------------------------------------------------------------------------------------------------
+// delayed calls (the elements std.map / std.mapWithIndex / std.mapWithKey / std.filterMap / std.makeArray produce)
+// ---------------------------------------------------------------------------------------------------
+
+/// nargs: how many argument thunks the delayed call carries for `function(x, y = true) null`
+fn call_thunk_case(nargs: u8) {
+    let arena = Arena::new();
+    let mut program = bare_program(&arena);
+    program.max_stack = 0;
+    let x = program.str_interner.intern(&arena, "x");
+    let y = program.str_interner.intern(&arena, "y");
+    let def_env = empty_env();
+    let body: &ir::Expr<'_> = arena.alloc(ir::Expr::Null);
+    let dflt: &ir::Expr<'_> = arena.alloc(ir::Expr::Bool(true));
+    let params: &[(InternedStr<'_>, Option<&ir::Expr<'_>>)] = arena.alloc_slice(&[(x, None), (y, Some(dflt))]);
+    let func: GcView<FuncData<'_>> =
+        GcView::kani_unmanaged(FuncData::new(params, FuncKind::Normal { name: None, body, env: Gc::from(&def_env) }));
+    let a0 = done_thunk(ValueData::Number(10.0));
+    let a1 = done_thunk(ValueData::Number(11.0));
+    let a2 = done_thunk(ValueData::Number(12.0));
+    let args: Box<[Gc<ThunkData<'_>>]> = match nargs {
+        0 => Box::new([]),
+        1 => Box::new([Gc::from(&a0)]),
+        2 => Box::new([Gc::from(&a0), Gc::from(&a1)]),
+        _ => Box::new([Gc::from(&a0), Gc::from(&a1), Gc::from(&a2)]),
+    };
+    let thunk = GcView::kani_unmanaged(ThunkData::new_pending_call(Gc::from(&func), args));
+    let keep = thunk.clone();
+    let mut ev = bare_evaluator(&mut program);
+    ev.stack_trace_len = 1;
+    ev.state_stack.push(State::DoThunk(thunk));
+    let r = ev.run();
+    match nargs {
+        1 | 2 => {
+            assert!(is_stack_overflow(&r), "the step ran: a call with 1 or 2 arguments is well-formed");
+            assert!(ev.state_stack.len() == 2 && matches!(&ev.state_stack[0], State::GotThunk(t) if t.kani_same(&keep)));
+            let State::Expr { expr, env: call_env } = &ev.state_stack[1] else { panic!("the body is scheduled") };
+            assert!(core::ptr::eq(*expr, body));
+            // EVERY parameter is bound in the body's environment (looking up an unbound one panics)
+            let tx = call_env.get_var(x).view();
+            let ty = call_env.get_var(y).view();
+            assert!(tx.kani_same(&a0), "x is the first argument");
+            if nargs == 2 {
+                assert!(ty.kani_same(&a1), "y is the second argument");
+            } else {
+                assert!(matches!(ty.get_value(), Some(ValueData::Bool(true))), "y, not passed, is bound to its default");
+            }
+            core::mem::forget((tx, ty));
+        }
+        0 => {
+            assert!(matches!(&r, Err(e) if matches!(e.kind, EvalErrorKind::CallParamNotBound { .. })), "a required parameter without argument is an error");
+        }
+        _ => {
+            assert!(matches!(&r, Err(e) if matches!(e.kind, EvalErrorKind::TooManyCallArgs { .. })), "more arguments than parameters is an error");
+        }
+    }
+    core::mem::forget(r);
+    core::mem::forget(ev);
+    core::mem::forget(program);
+    core::mem::forget((keep, func, def_env, a0, a1, a2));
+}
+
+// @harness id=c02_call_thunk_binds_defaults props=C02,C01,C04 tier=quick cap=1800 unwindset=9Evaluator3run@first:1
+// @desc one iteration of the real Evaluator::run on DoThunk of a DELAYED CALL (what std.map, std.mapWithIndex, std.mapWithKey, std.filterMap and std.makeArray put into their results) of `function(x, y = true) body` carrying ONE argument: the body is scheduled in an environment that binds x to the argument AND y to its default - never a body that runs with an unbound parameter (looking one up panics "variable not found")
+// @bound one loop iteration; a two-parameter function with one default; one argument
+// @funcs Evaluator::run (arm State::DoThunk, PendingThunk::Call), Evaluator::check_call_thunk_args, Evaluator::check_call_args_generic, Evaluator::execute_call, Evaluator::execute_normal_call, ThunkEnv::get_var
+run_stubs_call! {
+#[kani::proof]
+#[kani::unwind(6)]
+#[kani::stub(crate::program::eval::Evaluator::execute_built_in_call, crate::program::eval::Evaluator::kstub_execute_built_in_call)]
+#[kani::stub(crate::program::eval::Evaluator::execute_native_call, crate::program::eval::Evaluator::kstub_execute_native_call)]
+fn c02_call_thunk_binds_defaults() {
+    call_thunk_case(1);
+    kani::cover!(true, "default bound");
+}
+}
+
+// @harness id=c02_call_thunk_arity props=C02,C01 tier=thorough cap=2700 unwindset=9Evaluator3run@first:1
+// @desc as c02_call_thunk_binds_defaults for the other argument counts: two arguments bind x and y; none fails with CallParamNotBound, three with TooManyCallArgs
+// @bound one loop iteration per case; 0, 2 and 3 arguments
+// @funcs Evaluator::run (arm State::DoThunk, PendingThunk::Call), Evaluator::check_call_thunk_args, Evaluator::check_call_args_generic, Evaluator::execute_call
+run_stubs_call! {
+#[kani::proof]
+#[kani::unwind(6)]
+#[kani::stub(crate::program::eval::Evaluator::execute_built_in_call, crate::program::eval::Evaluator::kstub_execute_built_in_call)]
+#[kani::stub(crate::program::eval::Evaluator::execute_native_call, crate::program::eval::Evaluator::kstub_execute_native_call)]
+fn c02_call_thunk_arity() {
+    call_thunk_case(2);
+    kani::cover!(true, "both passed");
+    call_thunk_case(0);
+    kani::cover!(true, "too few");
+    call_thunk_case(3);
+    kani::cover!(true, "too many");
 }
 }
